@@ -39,7 +39,7 @@ def main():
         for line in open(p):
             m = re.match(r'(\S+) check=(\S+) tier=(\S+) repo=(\S+) (CAUGHT|MISSED|PATCH\S*)(.*)', line.strip())
             if m:
-                res[m.group(1)] = m
+                res.setdefault(m.group(1), {})[m.group(2)] = m        # last run per (change, check)
     print('| id | the change, and what it needs to manifest | result (`./check` quick tier on the patched tree) | added for it |')
     print('|---|---|---|---|')
     for sid in sorted(d for d in os.listdir(root) if re.match(r'C\d\d-\d+$', d)):
@@ -48,12 +48,16 @@ def main():
         needs = ' '.join(meta.get('needs', '').split())
         text = (summ[:170] + '…' if len(summ) > 170 else summ) + ' **Needs:** ' + (needs[:150] + '…' if len(needs) > 150 else needs)
         text = text.replace('|', '\\|')
-        m = res.get(sid)
-        if m is None:
+        ms = res.get(sid)
+        if not ms:
             r = 'not run'
         else:
-            how = 'model/implementation tie or proof broke, no concrete input' if 'no-failing-input-found' in m.group(6) else 'concrete failing input (replay)'
-            r = ('caught by %s: %s' % (m.group(2), how)) if m.group(5) == 'CAUGHT' else 'missed by %s' % m.group(2)
+            parts = []
+            for chk in sorted(ms, key=lambda c: (c != sid.split('-')[0], c)):
+                m = ms[chk]
+                how = 'tie or proof broke, no concrete input' if 'no-failing-input-found' in m.group(6) else 'concrete failing input (replay)'
+                parts.append(('caught by %s: %s' % (chk, how)) if m.group(5) == 'CAUGHT' else 'missed by %s' % chk)
+            r = '; '.join(parts)
         print('| %s | %s | %s | %s |' % (sid, text, r, STRENGTHENED.get(sid, '')))
 
 
